@@ -71,6 +71,29 @@ def apply_faults(U, letters, layout, faults):
             l = cand[f["dim"] % len(cand)]
             unk = UNKNOWN[build.udim(U, l).get("dtype")] if build.udim(U, l).get("dtype") else ("zz_unknown" if isinstance(items[l][0], str) else 987654)
             rows[i] = [(dict(lab, **{l: unk}), v) for lab, v in rows[i]]
+        elif k in ("relabel_known", "swap_labels"):
+            # a cell gets ANOTHER KNOWN item (typo that is still a valid label), or two rows exchange one label:
+            # row count and per-column item counts can stay balanced while label combinations collide
+            cand = [l for l in letters if l != wide and l not in lay.get("drop_single", []) and len(items[l]) > 1]
+            if not cand:
+                continue
+            l = cand[f["dim"] % len(cand)]
+            if k == "relabel_known":
+                if not rows[i]:
+                    continue
+                cur = rows[i][0][0][l]
+                others = [it for it in items[l] if it != cur]
+                if cur not in items[l]:
+                    continue
+                new = others[f["pos2"] % len(others)]
+                rows[i] = [(dict(lab, **{l: new}), v) for lab, v in rows[i]]
+            else:
+                j = f["pos2"] % len(rows)
+                if not rows[i] or not rows[j]:
+                    continue
+                a, b = rows[i][0][0][l], rows[j][0][0][l]
+                rows[i] = [(dict(lab, **{l: b}), v) for lab, v in rows[i]]
+                rows[j] = [(dict(lab, **{l: a}), v) for lab, v in rows[j]] if j != i else rows[i]
         elif k == "blank":
             if not rows[i]:
                 continue
@@ -249,7 +272,7 @@ def run_fault_case(desc, weak_only=False):
     return {"nontrivial": bool(desc["faults"]) and (pos_late or bool(layout.get("wide")) or len(desc["faults"]) >= 2), "classes": cl}
 
 
-FAULT_KINDS = ["drop_row", "dup_row", "relabel", "blank", "drop_dimcol", "junk_cols", "wide_relabel", "wide_drop"]
+FAULT_KINDS = ["drop_row", "dup_row", "relabel", "blank", "drop_dimcol", "junk_cols", "wide_relabel", "wide_drop", "relabel_known", "swap_labels"]
 
 
 @st.composite
@@ -338,6 +361,8 @@ class Single(Facet):
                         single_faults.append({"kind": "dup_row", "pos": pos, "pos2": pos2, "other_value": bool(pos % 2)})
                     for dim in range(len(letters) - (1 if lay["wide"] else 0)):
                         single_faults.append({"kind": "relabel", "pos": pos, "dim": dim})
+                        single_faults.append({"kind": "relabel_known", "pos": pos, "dim": dim, "pos2": pos % 2})
+                        single_faults.append({"kind": "swap_labels", "pos": pos, "dim": dim, "pos2": (pos + 1 + dim) % nrows})
                     for c in range(ncell):
                         single_faults.append({"kind": "blank", "pos": pos, "dim": c})
                 for dim in range(len(letters)):
@@ -372,7 +397,7 @@ class Combos(Facet):
         lens, kinds = ([3, 3], ["int", "str"]) if tier == "quick" else ([4, 3], ["int", "str"])
         U = {"dims": [{"letter": l, "name": gen.NAMES[l], "items": gen.items_for(l, k, n, kd), "dtype": gen.kind_dtype(kd)} for k, (l, n, kd) in enumerate(zip(letters, lens, kinds))]}
         lay = {"wide": None, "index": [], "header": {"a": "name", "b": "letter"}, "value_col": "value"}
-        kinds_ = ["drop_row", "dup_row", "relabel", "blank"]
+        kinds_ = ["drop_row", "dup_row", "relabel", "blank", "relabel_known", "swap_labels"]
         positions = [0, 4, 7]
         for r in (2, 3):
             for ks in it.product(kinds_, repeat=r):
